@@ -25,6 +25,7 @@ import (
 	"fmt"
 	"io"
 	"io/ioutil"
+	"math"
 	"os"
 	"os/exec"
 	"path/filepath"
@@ -37,8 +38,10 @@ import (
 	"time"
 
 	"github.com/logrange/logrange/api"
+	"github.com/logrange/logrange/pkg/lql"
 	"github.com/logrange/logrange/pkg/model"
 	"github.com/logrange/logrange/pkg/model/tag"
+	"github.com/logrange/logrange/pkg/partition"
 	"github.com/logrange/logrange/pkg/pipe"
 	"github.com/logrange/logrange/pkg/utils/verifhook"
 	"github.com/logrange/range/pkg/records"
@@ -1088,6 +1091,11 @@ func (s *sim) oracle(rng *vh.Rng, how string, ref probeRef) {
 			}
 		}
 	}
+	for _, t := range s.sortedTags() {
+		if _, ok := ip[t]; ok {
+			s.truncateProbe(s.parts[t], how)
+		}
+	}
 	// partitions and full reads
 	for _, t := range s.sortedTags() {
 		p := s.parts[t]
@@ -1153,6 +1161,47 @@ func (s *sim) oracle(rng *vh.Rng, how string, ref probeRef) {
 	}
 	if mp != impl {
 		res.Mismatch(vh.Mismatch{Section: s.sec, Function: "pipe registry after " + how, Input: s.in, Impl: impl, Model: mp})
+	}
+}
+
+// truncateProbe: TRUNCATE DRYRUN … BEFORE <timestamp of the newest event> must not select a chunk that holds an event
+// at or after that timestamp. It decides on the chunk hulls the time index reports, so it observes an unsound hull even
+// where RANGE queries are protected by other means (the selector keeps a chunk open while the index accounts for fewer
+// records than the chunk holds). A dry run changes nothing.
+func (s *sim) truncateProbe(p *part, how string) {
+	if p.dest || len(p.events) == 0 || !monotone(p.events) {
+		return
+	}
+	t := p.events[len(p.events)-1].Ts
+	src, err := lql.ParseSource(fromOf(p.tags))
+	if err != nil {
+		return
+	}
+	selected := 0
+	err = s.srv.Parts.Truncate(context.Background(), partition.TruncateParams{DryRun: true, TagsExpr: src, OldestTs: t, MaxDBSize: math.MaxUint64},
+		func(ti partition.TruncateInfo) { selected += ti.ChunksDeleted })
+	if err != nil {
+		return
+	}
+	allowed, off := 0, 0
+	for _, c := range p.chunks {
+		if c.n == 0 || off+c.n > len(p.events) {
+			break
+		}
+		if p.events[off+c.n-1].Ts >= t {
+			break
+		}
+		allowed++
+		off += c.n
+	}
+	res.Dist(s.sect, "truncate-dryrun-probe")
+	if selected > allowed {
+		finding := ""
+		if s.crashMode {
+			finding = "F06" // the chunk hull after recovery does not contain the flushed events: the shape of the repaired finding
+		}
+		s.specFail("truncate-would-remove-newer-events", fmt.Sprintf("TRUNCATE DRYRUN BEFORE %d over partition %s after %s selects a chunk that holds events at or after that time (the chunk hull the time index reports does not contain the flushed events)", t, p.tags, how),
+			fmt.Sprintf("%d chunks selected", selected), fmt.Sprintf("at most %d (chunks wholly older)", allowed), "", false, finding)
 	}
 }
 
